@@ -162,7 +162,10 @@ Definition map_disciplined (a : access) : bool :=
 (* ---- the race signatures the model predicts (what the dynamic check compares with) ----
    A signature element is "<go-oidc function>:<read|write>[:map]".  Writers of stored objects are
    the finite list below (the Touch sites of Appendix B that survive the fix: commits, the store's
-   own Client(), the JWKS cache); a race is predicted between such a writer and any reader or
+   own Client(), the JWKS cache; and - outside the modelled handlers - the dynamic registration
+   update, which overwrites the metadata and the secret fields of the STORED client in place before
+   it saves it: internal/dcr update and setSecret, reached by PUT /register/{id} while other
+   requests use that client); a race is predicted between such a writer and any reader or
    writer of an object of the same kind: the index scans of that kind's manager (which read every
    stored object) and the functions of the packages that handle loaded objects of that kind.
    Nothing is predicted for a map operation inside internal/storage. *)
@@ -178,7 +181,12 @@ Definition writer_sites : list (string * okind) :=
     ("pkg/goidc.(*AuthnSession).SetIDTokenClaim", KSession);
     ("internal/storage.(*ClientManager).Client", KClient);
     ("pkg/goidc.(*Client).FetchPublicJWKS", KClient);
-    ("pkg/goidc.(*Client).fetchJWKS", KClient) ].
+    ("pkg/goidc.(*Client).fetchJWKS", KClient);
+    ("internal/dcr.update", KClient);
+    ("internal/dcr.setSecret", KClient);
+    (* the decoder of the update request fills the slices of the metadata that dcr.update then
+       publishes with its unsynchronised assignment: the detector names the filling *)
+    ("internal/dcr.(*request).UnmarshalJSON", KClient) ].
 (* who may hold (read) a loaded object of a kind: function-name prefixes *)
 Definition reader_prefixes (k : okind) : list string :=
   match k with
